@@ -26,6 +26,7 @@ package source
 //@ unit (*StringDatasetContinuation).AsIncrToken
 //@   opt replay
 //@   prop C08
+//@   modifies none
 //@   requires c != nil
 //@   ensures [empty-token-is-zero] c.Token == "" ==> result == 0
 //@   ensures [token-round-trip] forall n int :: 0 <= n && n <= 9223372036854775807 && c.Token == itoa(n) && c.Token != "" ==> result == n
@@ -180,3 +181,35 @@ package source
 //@     ghost contG := $result0
 //@   at call processEntities#1 before
 //@     assert [C18:position-handed-on-with-the-batch-is-the-one-the-read-returned] cast($arg1, "*source.MultiDatasetContinuation") == cast(since, "*source.MultiDatasetContinuation") && cast(since, "*source.MultiDatasetContinuation").MainToken == itoa(contG)
+
+// the multi-source continuation reads as the active dependency's position while a dependency is being processed, else
+// as the main dataset's position
+//@ unit (*MultiDatasetContinuation).AsIncrToken
+//@   prop C18
+//@   requires c != nil && (c.activeDS != "" ==> c.DependencyTokens != nil && has(c.DependencyTokens, c.activeDS) && c.DependencyTokens[c.activeDS] != nil)
+//@   ensures [C18:main-position-round-trips] old(c.activeDS) == "" ==> (forall n int :: 0 <= n && n <= 9223372036854775807 && old(c.MainToken) == itoa(n) ==> result == n)
+//@   at call AsIncrToken#1 before
+//@     assert [C18:dependency-position-read-from-the-active-dependencys-own-token] c.activeDS != "" && $arg0 == c.DependencyTokens[c.activeDS]
+//@ unit (*MultiDatasetContinuation).GetToken
+//@   prop C18
+//@   requires c != nil && (c.activeDS != "" ==> c.DependencyTokens != nil && has(c.DependencyTokens, c.activeDS) && c.DependencyTokens[c.activeDS] != nil)
+//@   ensures [C18:main-token-when-no-dependency-is-active] old(c.activeDS) == "" ==> result == old(c.MainToken)
+//@   at call GetToken#1 before
+//@     assert [C18:dependency-token-read-from-the-active-dependencys-own-token] c.activeDS != "" && $arg0 == c.DependencyTokens[c.activeDS]
+
+// the watermark of every dependency is taken from that dependency's own dataset and stored under that dataset's name
+//@ assumed (*MultiSource).getDatasetFor
+//@   pure
+//@ assumed (*server.Dataset).GetChangesWatermark
+//@   pure
+//@ unit (*MultiSource).grabWatermarks
+//@   prop C18
+//@   ghost dsG *server.Dataset = nil
+//@   ghost wmG int = 0
+//@   requires multiSource != nil
+//@   at call getDatasetFor#1 before
+//@     assert [C18:watermark-taken-from-the-dependencys-own-dataset] dep.Dataset == multiSource.Dependencies[$i1 + 1].Dataset
+//@   at call getDatasetFor#1
+//@     ghost dsG := $result0
+//@   at call GetChangesWatermark#1 before
+//@     assert [C18:watermark-read-from-the-dataset-just-looked-up] $arg0 == dsG
